@@ -15,7 +15,9 @@ RECURSIVE Flat(_)
 Flat(ss) == IF ss = <<>> THEN <<>> ELSE Head(ss) \o Flat(Tail(ss))
 
 \* uniform record shapes (TLC cannot compare records of different shape inside one set)
-Op(name, b, n, num, parts) == [op |-> name, b |-> b, n |-> n, num |-> num, parts |-> parts]
+\* c = the container the operation is applied to, keep = the container (or slice) it returns lives on
+\* as a further container (see MStep below); both are ignored by Step
+Op(name, b, n, num, parts) == [op |-> name, b |-> b, n |-> n, num |-> num, parts |-> parts, c |-> 1, keep |-> FALSE]
 Res(ok, data, num, flag) == [ok |-> ok, data |-> data, num |-> num, flag |-> flag]
 Out(r, nq) == [res |-> r, q |-> nq]
 
@@ -70,6 +72,30 @@ Step(q, o) ==
     [] o.op = "GetNextN"        -> \* o.n = width
             { IF u.ok THEN Out(Res(TRUE, <<>>, u.val, FALSE), Drop(q, u.n)) ELSE Out(Err, q)
               : u \in UnpackAllowed(q, o.n, See(o.n)) }
+
+\* ---------------------------------------------------------------- several containers
+\* "Container-splitting": Get/Peek/GetNextBlock and their ...AsContainer forms hand out data that the caller
+\* goes on using, typically as a container of its own (New(slice) or the returned container), and
+\* AppendContainer shares the source's data with the target.  The Go code never copies in these
+\* operations, the byte queue model does: from then on every container is a queue of its own.
+\*   qs          sequence of queues, qs[1] is the container the history started with
+\*   o.c         index of the container the operation works on
+\*   o.keep      the result of a successful splitting operation becomes container Len(qs) + 1
+\*   AppendExisting(AsBlock): o.n = index of the source container, which stays as it is
+Splitters == {"Get", "GetMax", "GetAll", "Peek", "PeekContainer", "GetAsContainer", "GetNextBlock", "GetNextBlockAsContainer"}
+MOut(r, nqs) == [res |-> r, qs |-> nqs]
+MStep(qs, o) ==
+    IF o.op = "AppendExisting" THEN {MOut(OkNone, [qs EXCEPT ![o.c] = @ \o qs[o.n]])}
+    ELSE IF o.op = "AppendExistingAsBlock"
+    THEN {MOut(OkNone, [qs EXCEPT ![o.c] = @ \o Pack(OfNat(Len(qs[o.n]))) \o qs[o.n]])}
+    ELSE { MOut(x.res, LET base == [qs EXCEPT ![o.c] = x.q]
+                       IN IF o.keep /\ x.res.ok /\ o.op \in Splitters THEN Append(base, x.res.data) ELSE base)
+           : x \in Step(qs[o.c], o) }
+On(o, c, keep) == [o EXCEPT !.c = c, !.keep = keep]
+ExistingOps(qs, c) == { [Op(n, <<>>, j, <<0>>, <<>>) EXCEPT !.c = c] :
+                        n \in {"AppendExisting", "AppendExistingAsBlock"}, j \in (1..Len(qs)) \ {c} }
+\* an operation on one container leaves every other container exactly as it was
+OthersUntouched(qs, o) == \A x \in MStep(qs, o) : \A i \in 1..Len(qs) : i # o.c => x.qs[i] = qs[i]
 
 \* ---------------------------------------------------------------- argument domains
 Slices == { <<>>, <<7>>, <<1, 2, 3>>, <<128>>, <<200, 1>>, <<255, 127>>, <<128, 0>>, <<3, 9, 9, 9>>,
